@@ -56,6 +56,11 @@ inline rc::Gen<std::vector<uint8_t>> genSched(int maxLen, int maxChoice = 4) {
         {3, sparse(8)}, {4, sparse(4)}, {4, sparse(2)}, {3, uniform}, {2, spurious}});
 }
 
+// PCT mode: the bytes only seed priorities (first 16) and up to three change points (next 3)
+inline rc::Gen<std::vector<uint8_t>> genSchedPCT() {
+    return rc::gen::mapcat(rng(16, 19), [](int n) { return rc::gen::container<std::vector<uint8_t>>((size_t)n, rc::gen::resize(100, rc::gen::arbitrary<uint8_t>())); });
+}
+
 inline rc::Gen<std::vector<int>> genHeader(std::vector<std::pair<int, int>> ranges) {
     std::vector<rc::Gen<int>> gs;
     rc::Gen<std::vector<int>> acc = rc::gen::just(std::vector<int>{});
